@@ -11,7 +11,13 @@ that the model's functions are the translated ones:
 * `to_absolute`, `to_absolute_list`, `to_distance_mode` (C11: same toolpath in both distance modes);
 * `_filter_segments`, `estimate_length`, `parametric` (C12: the resolution; the last sample is always kept);
 * the set-up arithmetic of `arc`, `circle`, `helix`, `thread`, `spiral` (radius, start angle, sweep, centre, height,
-  the path function, its length) and the whole path from the call to the vertices handed to `move` (C10).
+  the path function, its length) and the whole path from the call to the vertices handed to `move` (C10);
+* section (f): `arc_radius` (validation / snap of the radius = `radiusResolve`, the centre = `radiusCentreRel`, then `arc`),
+  `polyline` (= `emitPolyline`), `spline` (control points = `splineControls`, the `np.linspace` parameterisation and the
+  three coordinate lists handed to scipy's `CubicSpline`, which stays a parameter; then `estimate_length` and
+  `parametric`), and the final loop of `parametric` (`to_distance_mode` against the position reached so far, then
+  `move`) = `emitMoves` / `emitParametric`, for every shape (`TracerTie_*_moves`).  `move` itself is the builder's
+  (`MotionTie_move`); what the tracer needs of it is the explicit hypothesis `MoveAdvances`.
 
 The only place where the source and the model differ in *form* is `height = t.z - o.z if len(target) > 2 else 0`:
 the model always takes `t.z - o.z`.  For a target of fewer than three components (`target.z = none`) the two agree
@@ -185,7 +191,7 @@ theorem TracerTie_estimate_length (T : Trig K) (d r : Bool) (pos : PL K) (res : 
 
 theorem TracerTie_parametric (T : Trig K) (d r : Bool) (pos : PL K) (res : K) (f : K → V3 K) (len : K) :
     PathTracer.parametric T d r pos res f len = parametricM T res f len := by
-  simp only [PathTracer.parametric, parametricM, TracerTie_filter_segments, linspace_tail, numSegments]
+  simp only [PathTracer.parametric, parametricM, TracerTie_filter_segments, linspace_tail, numSegments, List.map_id']
 
 end
 
@@ -310,6 +316,333 @@ theorem TracerTie_spiral_path (T : Trig K) (cw rel : Bool) (pos : PL K) (res : K
   simp only [PathTracer.spiral, TracerTie_helix_path T cw rel pos res target len _ _ h, traceSpiral]
 end
 
+
+/-! ## (f) the move loop of `parametric` and `polyline`; `arc_radius`; `spline`
+
+`self._g.move(p, **kwargs)` is not translated here (it is the builder's: `Props/MotionTie.lean`, `MotionTie_move`).  What the
+tracer needs of it is a parameter of the translated functions, `moveEffect pos p` = `self._g.position` after the call, and
+the theorems assume about it exactly what the builder tie establishes for a point with three numbers under the identity
+transform - **the position becomes `to_absolute(p)`** (`MoveAdvances`) - plus, in relative mode only, the law
+`a + (b - a) = b` of the scalar type (every ring; `Float` only up to rounding), which is what makes the model's
+"the position follows the vertex just emitted" true.  `np.copysign` and scipy's `CubicSpline` are parameters too. -/
+
+namespace GscribModel.TracerTie
+section
+variable {K : Type} [Add K] [Sub K] [Mul K] [Div K] [Neg K] [LE K] [LT K] [DecidableLE K] [DecidableLT K]
+  [OfNat K 0] [OfNat K 1] [OfNat K 2] [OfNat K 10]
+
+/-- what `GCodeCore.move` does to the position (`_transform_move`: `target_axes = self.to_absolute(point)`,
+    `_update_axes`: `self._current_axes = axes`), as far as `resolve()` can see -/
+def MoveAdvances (rel : Bool) (moveEffect : PL K → V3 K → PL K) : Prop :=
+  ∀ (pos : PL K) (w : V3 K), (moveEffect pos w).resolve = toAbsolute rel pos.resolve w.toPL
+
+/-- the law that lets a relative move land on the vertex it was computed for -/
+def RelLaw (K : Type) [Add K] [Sub K] (rel : Bool) : Prop := rel = true → ∀ a b : K, a + (b - a) = b
+
+/-- a move by the words computed for the vertex `v` reaches `v` -/
+def Reaches (rel : Bool) (moveEffect : PL K → V3 K → PL K) : Prop :=
+  ∀ (pos : PL K) (v : V3 K), (moveEffect pos (toDistanceMode rel pos.resolve v)).resolve = v
+
+theorem Reaches.of_advances {rel : Bool} {me : PL K → V3 K → PL K} (h : MoveAdvances rel me) (hlaw : RelLaw K rel) :
+    Reaches rel me := by
+  intro pos v
+  rw [h]
+  cases rel
+  · rfl
+  · have l := hlaw rfl
+    simp only [toAbsolute, toDistanceMode, V3.add, V3.sub, PL.resolve, V3.toPL, if_true, Option.getD_some, l]
+
+/-- the loop `for point in vs: point = to_distance_mode(point); move(point)` writes the model's `emitMoves` -/
+theorem move_loop (rel : Bool) (me : PL K → V3 K → PL K) (h : Reaches rel me) :
+    ∀ (vs : List (V3 K)) (pos : PL K) (acc : List (V3 K)),
+    (List.foldl (fun (s : PL K × List (V3 K)) (x : V3 K) =>
+        (me s.1 (GCodeCore.to_distance_mode rel s.1 (V3.toPL x)), s.2 ++ [GCodeCore.to_distance_mode rel s.1 (V3.toPL x)]))
+      (pos, acc) vs).2 = acc ++ emitMoves rel pos.resolve vs
+  | [], pos, acc => by simp [emitMoves]
+  | v :: vs, pos, acc => by
+    have e : GCodeCore.to_distance_mode rel pos (V3.toPL v) = toDistanceMode rel pos.resolve v := rfl
+    simp only [List.foldl_cons, e]
+    rw [move_loop rel me h vs, h pos v]
+    simp [emitMoves]
+
+/-- `parametric(function, length)`, the whole method: the words of the emitted moves -/
+def parametricMovesM (T : Trig K) (rel : Bool) (res : K) (o : V3 K) (f : K → V3 K) (len : K) : Option (List (V3 K)) :=
+  if len ≤ (0 : K) then none
+  else some (emitParametric T.sqrt rel res o ((thetas T (numSegments T len res)).map f))
+
+theorem parametricMovesM_eq (T : Trig K) (rel : Bool) (res : K) (o : V3 K) (f : K → V3 K) (len : K) :
+    parametricMovesM T rel res o f len = (parametricM T res f len).map (emitMoves rel o) := by
+  simp only [parametricMovesM, parametricM, emitParametric]
+  split <;> rfl
+
+/-- `self.parametric(function, length)` (the whole method) after a set-up that may have raised -/
+def thenMoves (T : Trig K) (rel : Bool) (res : K) (o : V3 K) (a : Option ((K → V3 K) × K)) : Option (List (V3 K)) :=
+  a.bind fun fl => parametricMovesM T rel res o fl.1 fl.2
+
+/-! ### `arc_radius` -/
+
+/-- `arc_radius` in the model's words: the radius is validated / snapped (`radiusResolve`, tolerance `0.01`), the centre
+    is `radiusCentreRel`, then `arc` -/
+def arcRadiusArgsM [OfScientific K] (T : Trig K) (copysign : K → K → K) (cw rel : Bool) (o : V3 K) (target : PL K)
+    (radius : K) : Option ((K → V3 K) × K) :=
+  (radiusResolve T (0.01 : K) copysign o (toAbsolute rel o target) radius).bind fun r =>
+    arcArgsM T (traceArc T cw rel o target (radiusCentreRel T cw o (toAbsolute rel o target) r))
+
+/-- the shape of the radius validation of `arc_radius`: `if c1: (if c2: radius = a else: raise)`, then the rest `g` -/
+theorem resolve_cases {α : Type} (c1 : Bool) (c2 : Prop) [Decidable c2] (a r : K) (g : K → Option α) :
+    (if c1 = true then (if c2 then g a else none) else g r)
+      = (if c1 = true then (if c2 then some a else none) else some r).bind g := by
+  cases c1
+  · rfl
+  · by_cases h : c2 <;> simp [h]
+
+/-- the same with the test inverted: `if c1: (if not c2: raise); radius = a` -/
+theorem resolve_cases' {α : Type} (c1 : Bool) (c2 : Prop) [Decidable c2] (a r : K) (g : K → Option α) :
+    (if c1 = true then (if (!decide c2) = true then none else g a) else g r)
+      = (if c1 = true then (if c2 then some a else none) else some r).bind g := by
+  cases c1
+  · rfl
+  · by_cases h : c2 <;> simp [h]
+
+/-! ### `spline` -/
+
+/-- float `==` written with the order (`pyEq`) is equality: holds in every linear order (`ℚ`, `ℝ`), and for doubles
+    that are not NaN up to the identification of `-0.0` with `0.0` -/
+def EqLaw (K : Type) [LT K] [DecidableLT K] : Prop := ∀ a b : K, pyEq a b = true ↔ a = b
+
+theorem pyEqV3_iff (h : EqLaw K) (p q : V3 K) : pyEqV3 p q = true ↔ p = q := by
+  cases p; cases q
+  simp only [pyEqV3, Bool.and_eq_true, h _ _, V3.mk.injEq, and_assoc]
+
+/-- `np.linspace(0, 1, n)` as the model's `theta` grid -/
+def splineGrid (T : Trig K) (n : Nat) : List K := (List.range n).map fun i => theta T (n - 1) i
+
+/-- `spline_function` for given control points; `cs x y` is scipy's `CubicSpline(x, y)` as a function of `θ` -/
+def splineFnM (T : Trig K) (cs : List K → List K → K → K) (controls : List (V3 K)) : K → V3 K :=
+  fun θ => ⟨cs (splineGrid T controls.length) (controls.map (·.x)) θ,
+            cs (splineGrid T controls.length) (controls.map (·.y)) θ,
+            cs (splineGrid T controls.length) (controls.map (·.z)) θ⟩
+
+/-- `spline` up to its final call, in the model's words -/
+def splineArgsM [DecidableEq K] (T : Trig K) (cs : List K → List K → K → K) (rel : Bool) (o : V3 K) (targets : List (PL K)) :
+    Option ((K → V3 K) × K) :=
+  if (splineControls rel o targets).length < 2 then none
+  else some (splineFnM T cs (splineControls rel o targets),
+             estimateLength T 500 (splineFnM T cs (splineControls rel o targets)))
+
+/-- one round of the duplicate-removal loop of `spline` -/
+def controlStep (cs : List (V3 K)) (p : V3 K) : List (V3 K) := if pyEqV3 p (pyLast cs) = true then cs else cs ++ [p]
+
+/-- `if point != controls[-1]: controls.append(point)` -/
+theorem controlStep_ne (cs : List (V3 K)) (p : V3 K) :
+    (if (!pyEqV3 p (pyLast cs)) = true then cs ++ [p] else cs) = controlStep cs p := by
+  unfold controlStep; cases pyEqV3 p (pyLast cs) <;> rfl
+
+/-- `if point == controls[-1]: continue` … `controls.append(point)` -/
+theorem controlStep_eq (cs : List (V3 K)) (p : V3 K) :
+    (if pyEqV3 p (pyLast cs) = true then cs else cs ++ [p]) = controlStep cs p := rfl
+
+/-- the duplicate-removal loop of `spline` -/
+theorem controls_loop [DecidableEq K] (h : EqLaw K) : ∀ (pts pre : List (V3 K)) (last : V3 K),
+    List.foldl controlStep (pre ++ [last]) pts = pre ++ last :: splineControls.go last pts
+  | [], pre, last => by simp [splineControls.go]
+  | p :: pts, pre, last => by
+    have hl : pyLast (pre ++ [last]) = last := by simp [pyLast]
+    simp only [List.foldl_cons, controlStep, hl]
+    by_cases e : p = last
+    · have hp : pyEqV3 p last = true := (pyEqV3_iff h p last).2 e
+      simp only [hp, if_true]
+      rw [controls_loop h pts pre last]
+      simp [splineControls.go, e]
+    · have hp : pyEqV3 p last = false := by
+        cases hh : pyEqV3 p last
+        · rfl
+        · exact absurd ((pyEqV3_iff h p last).1 hh) e
+      simp only [hp, Bool.false_eq_true, if_false]
+      rw [controls_loop h pts (pre ++ [last]) p]
+      simp [splineControls.go, e]
+
+end
+end GscribModel.TracerTie
+
+open GscribModel.TracerTie
+
+section
+variable {K : Type} [Add K] [Sub K] [Mul K] [Div K] [Neg K] [LE K] [LT K] [DecidableLE K] [DecidableLT K]
+  [OfNat K 0] [OfNat K 1] [OfNat K 2] [OfNat K 10]
+
+/-! ### the move loop (`parametric`, `polyline`) -/
+
+theorem TracerTie_emit_moves (T : Trig K) (me : PL K → V3 K → PL K) (d rel : Bool) (pos : PL K) (res : K) (f : K → V3 K) (len : K)
+    (hmove : MoveAdvances rel me) (hlaw : RelLaw K rel) :
+    PathTracer.parametric_moves me T d rel pos res f len = parametricMovesM T rel res pos.resolve f len := by
+  have h := move_loop rel me (Reaches.of_advances hmove hlaw)
+  simp only [PathTracer.parametric_moves, parametricMovesM, emitParametric, TracerTie_filter_segments, linspace_tail, numSegments, List.map_id']
+  split
+  · rfl
+  · exact congrArg some (by simpa using h _ pos [])
+
+theorem TracerTie_polyline (T : Trig K) (me : PL K → V3 K → PL K) (d rel : Bool) (pos : PL K) (res : K) (targets : List (PL K))
+    (hmove : MoveAdvances rel me) (hlaw : RelLaw K rel) :
+    PathTracer.polyline_moves me T d rel pos res targets = emitPolyline rel pos.resolve targets := by
+  have h := move_loop rel me (Reaches.of_advances hmove hlaw) (toAbsoluteList rel pos.resolve targets) pos []
+  simp only [PathTracer.polyline_moves, emitPolyline, TracerTie_to_absolute_list]
+  simpa using h
+
+theorem TracerTie_polyline_vertices (T : Trig K) (d rel : Bool) (pos : PL K) (res : K) (targets : List (PL K)) :
+    PathTracer.polyline T d rel pos res targets = toAbsoluteList rel pos.resolve targets :=
+  TracerTie_to_absolute_list rel pos targets
+
+
+/-! ### `arc_radius` -/
+
+theorem TracerTie_arc_radius_centre [OfScientific K] (T : Trig K) (cs : K → K → K) (cw rel : Bool) (pos : PL K) (res : K)
+    (target : PL K) (len : Nat) (radius : K) :
+    PathTracer.arc_radius_args cs T cw rel pos res target len radius
+      = (radiusResolve T (0.01 : K) cs pos.resolve (toAbsolute rel pos.resolve target) radius).bind fun r =>
+          PathTracer.arc_args T cw rel pos res target len (radiusCentreRel T cw pos.resolve (toAbsolute rel pos.resolve target) r) :=
+  let o := pos.resolve
+  let t := toAbsolute rel o target
+  let dist := T.hypot (t.x - o.x) (t.y - o.y)
+  by first
+    | exact resolve_cases ((!decide (radius < 0) && !decide (0 < radius)) || decide (absK radius < dist / 2))
+          (absK (absK radius - dist / 2) ≤ (0.01 : K)) (cs (dist / 2) radius) radius
+          (fun r => PathTracer.arc_args T cw rel pos res target len (radiusCentreRel T cw o t r))
+    | exact resolve_cases' ((!decide (radius < 0) && !decide (0 < radius)) || decide (absK radius < dist / 2))
+          (absK (absK radius - dist / 2) ≤ (0.01 : K)) (cs (dist / 2) radius) radius
+          (fun r => PathTracer.arc_args T cw rel pos res target len (radiusCentreRel T cw o t r))
+
+theorem TracerTie_arc_radius [OfScientific K] (T : Trig K) (cs : K → K → K) (cw rel : Bool) (pos : PL K) (res : K)
+    (target : PL K) (len : Nat) (radius : K) (h : Flat target len) :
+    PathTracer.arc_radius_args cs T cw rel pos res target len radius
+      = arcRadiusArgsM T cs cw rel pos.resolve target radius := by
+  simp only [TracerTie_arc_radius_centre, arcRadiusArgsM, TracerTie_arc T cw rel pos res target len _ h]
+
+theorem TracerTie_arc_radius_path [OfScientific K] (T : Trig K) (cs : K → K → K) (cw rel : Bool) (pos : PL K) (res : K)
+    (target : PL K) (len : Nat) (radius : K) (h : Flat target len) :
+    PathTracer.arc_radius cs T cw rel pos res target len radius
+      = thenParametric T res (arcRadiusArgsM T cs cw rel pos.resolve target radius) := by
+  have e : PathTracer.arc_radius cs T cw rel pos res target len radius
+      = (radiusResolve T (0.01 : K) cs pos.resolve (toAbsolute rel pos.resolve target) radius).bind fun r =>
+          PathTracer.arc T cw rel pos res target len (radiusCentreRel T cw pos.resolve (toAbsolute rel pos.resolve target) r) :=
+    let o := pos.resolve
+    let t := toAbsolute rel o target
+    let dist := T.hypot (t.x - o.x) (t.y - o.y)
+    by first
+      | exact resolve_cases ((!decide (radius < 0) && !decide (0 < radius)) || decide (absK radius < dist / 2))
+            (absK (absK radius - dist / 2) ≤ (0.01 : K)) (cs (dist / 2) radius) radius
+            (fun r => PathTracer.arc T cw rel pos res target len (radiusCentreRel T cw o t r))
+      | exact resolve_cases' ((!decide (radius < 0) && !decide (0 < radius)) || decide (absK radius < dist / 2))
+            (absK (absK radius - dist / 2) ≤ (0.01 : K)) (cs (dist / 2) radius) radius
+            (fun r => PathTracer.arc T cw rel pos res target len (radiusCentreRel T cw o t r))
+  rw [e]
+  simp only [arcRadiusArgsM, thenParametric, TracerTie_arc_path T cw rel pos res target len _ h]
+  cases radiusResolve T (0.01 : K) cs pos.resolve (toAbsolute rel pos.resolve target) radius <;> rfl
+
+
+/-! ### `spline`: the control points and the function handed to `parametric`; the whole path -/
+
+theorem TracerTie_spline_controls [DecidableEq K] (T : Trig K) (cs : List K → List K → K → K) (d rel : Bool) (pos : PL K) (res : K)
+    (targets : List (PL K)) (heq : EqLaw K) :
+    PathTracer.spline_args cs T d rel pos res targets = splineArgsM T cs rel pos.resolve targets := by
+  have hc := controls_loop heq (toAbsoluteList rel pos.resolve targets) [] pos.resolve
+  have he : ∀ f, PathTracer.estimate_length T d rel pos res (500 : Int) f = estimateLength T 500 f :=
+    fun f => TracerTie_estimate_length T d rel pos res 500 f
+  have hg : ∀ n, npLinspace01 T n = splineGrid T n := fun n => rfl
+  have hc' : List.foldl controlStep [pos.resolve] (toAbsoluteList rel pos.resolve targets)
+      = splineControls rel pos.resolve targets := hc
+  have hf : (fun (cs : List (V3 K)) (p : V3 K) => controlStep cs p) = controlStep := rfl
+  simp only [PathTracer.spline_args, splineArgsM, TracerTie_to_absolute_list, controlStep_ne, controlStep_eq, hf, hc', he, hg]
+  split <;> rfl
+
+theorem TracerTie_spline_vertices [DecidableEq K] (T : Trig K) (cs : List K → List K → K → K) (d rel : Bool) (pos : PL K) (res : K)
+    (targets : List (PL K)) (heq : EqLaw K) :
+    PathTracer.spline cs T d rel pos res targets = thenParametric T res (splineArgsM T cs rel pos.resolve targets) := by
+  have e : PathTracer.spline cs T d rel pos res targets
+      = thenParametric T res (PathTracer.spline_args cs T d rel pos res targets) := by
+    simp only [PathTracer.spline, PathTracer.spline_args, thenParametric, TracerTie_parametric]
+    split <;> simp only [Option.bind_none, Option.bind_some]
+  rw [e, TracerTie_spline_controls T cs d rel pos res targets heq]
+
+theorem TracerTie_spline_path [DecidableEq K] (T : Trig K) (cs : List K → List K → K → K) (me : PL K → V3 K → PL K) (d rel : Bool)
+    (pos : PL K) (res : K) (targets : List (PL K)) (heq : EqLaw K) (hmove : MoveAdvances rel me) (hlaw : RelLaw K rel) :
+    PathTracer.spline_moves cs me T d rel pos res targets
+      = thenMoves T rel res pos.resolve (splineArgsM T cs rel pos.resolve targets) := by
+  have e : PathTracer.spline_moves cs me T d rel pos res targets
+      = thenMoves T rel res pos.resolve (PathTracer.spline_args cs T d rel pos res targets) := by
+    simp only [PathTracer.spline_moves, PathTracer.spline_args, thenMoves, TracerTie_emit_moves T me d rel pos res _ _ hmove hlaw]
+    split <;> simp only [Option.bind_none, Option.bind_some]
+  rw [e, TracerTie_spline_controls T cs d rel pos res targets heq]
+
+/-! ### the other shapes, all the way to the moves -/
+
+theorem TracerTie_arc_moves [OfScientific K] (T : Trig K) (me : PL K → V3 K → PL K) (cw rel : Bool) (pos : PL K) (res : K)
+    (target : PL K) (len : Nat) (center : PL K) (h : Flat target len) (hmove : MoveAdvances rel me) (hlaw : RelLaw K rel) :
+    PathTracer.arc_moves me T cw rel pos res target len center
+      = thenMoves T rel res pos.resolve (arcArgsM T (traceArc T cw rel pos.resolve target center)) := by
+  rw [← TracerTie_arc T cw rel pos res target len center h]
+  simp only [PathTracer.arc_moves, PathTracer.arc_args, thenMoves, TracerTie_emit_moves T me cw rel pos res _ _ hmove hlaw]
+  split <;> rfl
+
+theorem TracerTie_circle_moves [OfScientific K] (T : Trig K) (me : PL K → V3 K → PL K) (cw rel : Bool) (pos : PL K) (res : K)
+    (center : PL K) (hmove : MoveAdvances rel me) (hlaw : RelLaw K rel) :
+    PathTracer.circle_moves me T cw rel pos res center
+      = thenMoves T rel res pos.resolve (arcArgsM T (traceCircle T cw rel pos.resolve center)) :=
+  TracerTie_arc_moves T me cw rel pos res _ 3 center (Or.inl (by decide)) hmove hlaw
+
+theorem TracerTie_arc_radius_moves [OfScientific K] (T : Trig K) (cs : K → K → K) (me : PL K → V3 K → PL K) (cw rel : Bool)
+    (pos : PL K) (res : K) (target : PL K) (len : Nat) (radius : K) (h : Flat target len)
+    (hmove : MoveAdvances rel me) (hlaw : RelLaw K rel) :
+    PathTracer.arc_radius_moves cs me T cw rel pos res target len radius
+      = thenMoves T rel res pos.resolve (arcRadiusArgsM T cs cw rel pos.resolve target radius) := by
+  have e : PathTracer.arc_radius_moves cs me T cw rel pos res target len radius
+      = (radiusResolve T (0.01 : K) cs pos.resolve (toAbsolute rel pos.resolve target) radius).bind fun r =>
+          PathTracer.arc_moves me T cw rel pos res target len (radiusCentreRel T cw pos.resolve (toAbsolute rel pos.resolve target) r) :=
+    let o := pos.resolve
+    let t := toAbsolute rel o target
+    let dist := T.hypot (t.x - o.x) (t.y - o.y)
+    by first
+      | exact resolve_cases ((!decide (radius < 0) && !decide (0 < radius)) || decide (absK radius < dist / 2))
+            (absK (absK radius - dist / 2) ≤ (0.01 : K)) (cs (dist / 2) radius) radius
+            (fun r => PathTracer.arc_moves me T cw rel pos res target len (radiusCentreRel T cw o t r))
+      | exact resolve_cases' ((!decide (radius < 0) && !decide (0 < radius)) || decide (absK radius < dist / 2))
+            (absK (absK radius - dist / 2) ≤ (0.01 : K)) (cs (dist / 2) radius) radius
+            (fun r => PathTracer.arc_moves me T cw rel pos res target len (radiusCentreRel T cw o t r))
+  rw [e]
+  simp only [arcRadiusArgsM, thenMoves, TracerTie_arc_moves T me cw rel pos res target len _ h hmove hlaw]
+  cases radiusResolve T (0.01 : K) cs pos.resolve (toAbsolute rel pos.resolve target) radius <;> rfl
+
+theorem TracerTie_helix_moves (T : Trig K) (me : PL K → V3 K → PL K) (cw rel : Bool) (pos : PL K) (res : K) (target : PL K)
+    (len : Nat) (center : PL K) (turns : Int) (h : Flat target len) (hmove : MoveAdvances rel me) (hlaw : RelLaw K rel) :
+    PathTracer.helix_moves me T cw rel pos res target len center turns
+      = if turns ≤ 0 then none
+        else thenMoves T rel res pos.resolve (some (helixArgsM T (traceHelix T cw rel pos.resolve target center turns.toNat))) := by
+  have e : PathTracer.helix_moves me T cw rel pos res target len center turns
+      = thenMoves T rel res pos.resolve (PathTracer.helix_args T cw rel pos res target len center turns) := by
+    simp only [PathTracer.helix_moves, PathTracer.helix_args, thenMoves, TracerTie_emit_moves T me cw rel pos res _ _ hmove hlaw]
+    split <;> simp only [Option.bind_none, Option.bind_some]
+  rw [e, TracerTie_helix T cw rel pos res target len center turns h]
+  split <;> rfl
+
+theorem TracerTie_thread_moves (T : Trig K) (me : PL K → V3 K → PL K) (cw rel : Bool) (pos : PL K) (res : K) (target : PL K)
+    (len : Nat) (pitch : K) (h : Flat target len) (hmove : MoveAdvances rel me) (hlaw : RelLaw K rel) :
+    PathTracer.thread_moves me T cw rel pos res target len pitch
+      = if pitch ≤ 0 then none
+        else thenMoves T rel res pos.resolve (some (helixArgsM T (traceThread T cw rel pos.resolve target pitch))) := by
+  have hn : ∀ n : Nat, ¬ (Int.ofNat (max 1 n) ≤ 0) := by intro n; simp only [Int.ofNat_eq_natCast]; omega
+  have hm : ∀ n : Nat, (Int.ofNat n).toNat = n := fun n => Int.toNat_natCast n
+  simp only [PathTracer.thread_moves, TracerTie_helix_moves T me cw rel pos res target len _ _ h hmove hlaw, hn, hm, if_false,
+    traceThread, threadCentre, threadTurns, pyAbs, TracerTie_to_absolute]
+
+theorem TracerTie_spiral_moves (T : Trig K) (me : PL K → V3 K → PL K) (cw rel : Bool) (pos : PL K) (res : K) (target : PL K)
+    (len : Nat) (turns : Int) (h : Flat target len) (hmove : MoveAdvances rel me) (hlaw : RelLaw K rel) :
+    PathTracer.spiral_moves me T cw rel pos res target len turns
+      = if turns ≤ 0 then none
+        else thenMoves T rel res pos.resolve (some (helixArgsM T (traceSpiral T cw rel pos.resolve target turns.toNat))) := by
+  simp only [PathTracer.spiral_moves, TracerTie_helix_moves T me cw rel pos res target len _ _ h hmove hlaw, traceSpiral]
+
+end
+
 /-! ## non-vacuity and concrete evaluations of the translated functions (at `K = Rat`)
 
 `Flat` holds for every target over the rationals (as over any ring); `ratTrig` is a stand-in record with an exact
@@ -351,5 +684,64 @@ example : PathTracer.parametric ratTrig false false ⟨none, none, none⟩ 1 (fu
 example : PathTracer.parametric ratTrig false false ⟨none, none, none⟩ 1 (fun θ => P θ 0 0) 0 = none := by decide +kernel
 example : (PathTracer.helix ratTrig false false ⟨none, none, none⟩ 1 ⟨some 1, some 0, none⟩ 2 ⟨some 1, some 0, none⟩ 0).isNone
     ∧ (PathTracer.thread ratTrig false false ⟨none, none, none⟩ 1 ⟨some 1, some 0, some 3⟩ 3 0).isNone := by decide +kernel
+
+/-! ### the hypotheses of section (f) hold over the rationals; the new functions evaluated -/
+
+theorem eqLaw_rat : EqLaw Rat := by
+  intro a b
+  simp only [pyEq, Bool.and_eq_true, Bool.not_eq_true', decide_eq_false_iff_not]
+  constructor
+  · intro h; exact Rat.le_antisymm (Rat.not_lt.1 h.2) (Rat.not_lt.1 h.1)
+  · intro h; subst h; exact ⟨Rat.lt_irrefl, Rat.lt_irrefl⟩
+
+theorem relLaw_rat (rel : Bool) : RelLaw Rat rel := by
+  intro _ a b; grind
+
+/-- `move` as the builder performs it on a full point under the identity transform: the position becomes `to_absolute(p)` -/
+def ratMove (rel : Bool) (pos : PL Rat) (w : V3 Rat) : PL Rat := (toAbsolute rel pos.resolve w.toPL).toPL
+
+theorem ratMove_advances (rel : Bool) : MoveAdvances rel (ratMove rel) := fun _ _ => rfl
+
+/-- a `Trig` whose `hypot` is exact on Pythagorean triples -/
+def ratTrig2 : Trig Rat := { ratTrig with hypot := fun x y => ratTrig.sqrt (x * x + y * y) }
+
+def ratCopysign (m s : Rat) : Rat := if s < 0 then -m else m
+
+/-- `polyline` in relative mode from `(1, -, 2)`: the vertices are `(2,1,2)`, `(2,3,5)`, the moves the offsets between them -/
+example : PathTracer.polyline_moves (ratMove true) ratTrig false true ⟨some 1, none, some 2⟩ 1
+      [⟨some 1, some 1, none⟩, ⟨none, some 2, some 3⟩] = [P 1 1 0, P 0 2 3]
+    ∧ PathTracer.polyline_moves (ratMove false) ratTrig false false ⟨some 1, none, some 2⟩ 1
+      [⟨some 1, some 1, none⟩, ⟨none, some 2, some 3⟩] = [P 1 1 2, P 1 2 3] := by decide +kernel
+
+/-- the whole `parametric` in relative mode: the vertices `1/10, 11/10, …, 4` become the steps between them -/
+example : PathTracer.parametric_moves (ratMove true) ratTrig false true ⟨none, none, none⟩ 1 (fun θ => P (4 * θ) 0 0) 4
+    = some [P (1/10) 0 0, P 1 0 0, P 1 0 0, P 1 0 0, P (9/10) 0 0] := by decide +kernel
+
+/-- `arc_radius` from the origin to `(6, 0)` with radius `5`: the centre is `(3, 4)` counter-clockwise and `(3, -4)`
+    clockwise (`cos = 1`, `sin = 0` in `ratTrig`: the path function returns `centre + (5, 0)`); the signs swap for the
+    long arc (`radius = -5`); a radius within `0.01` of half the chord is snapped to it (centre `(3, 0)`), a smaller one
+    raises -/
+example : (PathTracer.arc_radius_args ratCopysign ratTrig2 false false ⟨none, none, none⟩ 1 ⟨some 6, some 0, none⟩ 2 5).map (·.1 0)
+      = some (P 8 4 0)
+    ∧ (PathTracer.arc_radius_args ratCopysign ratTrig2 true false ⟨none, none, none⟩ 1 ⟨some 6, some 0, none⟩ 2 5).map (·.1 0)
+      = some (P 8 (-4) 0)
+    ∧ (PathTracer.arc_radius_args ratCopysign ratTrig2 false false ⟨none, none, none⟩ 1 ⟨some 6, some 0, none⟩ 2 (-5)).map (·.1 0)
+      = some (P 8 (-4) 0)
+    ∧ (PathTracer.arc_radius_args ratCopysign ratTrig2 false false ⟨none, none, none⟩ 1 ⟨some 6, some 0, none⟩ 2 (599/200)).map (·.1 0)
+      = some (P 6 0 0)
+    ∧ (PathTracer.arc_radius_args ratCopysign ratTrig2 false false ⟨none, none, none⟩ 1 ⟨some 6, some 0, none⟩ 2 (-599/200)).map (·.1 0)
+      = some (P 6 0 0)
+    ∧ (PathTracer.arc_radius_args ratCopysign ratTrig2 false false ⟨none, none, none⟩ 1 ⟨some 6, some 0, none⟩ 2 (149/50)).isNone
+    ∧ (PathTracer.arc_radius_args ratCopysign ratTrig2 false false ⟨none, none, none⟩ 1 ⟨some 6, some 0, none⟩ 2 0).isNone := by
+  decide +kernel
+
+/-- `spline`: consecutive duplicates (of the start point too) are dropped before the control points reach `CubicSpline`
+    (here a stand-in that returns `sum(y) + θ · sum(x)`: three controls `0, 1, 2` on the grid `0, 1/2, 1`); fewer than
+    two distinct points raise -/
+example : (PathTracer.spline_args (fun xs ys θ => ys.foldl (· + ·) 0 + θ * xs.foldl (· + ·) 0) ratTrig false false
+        ⟨none, none, none⟩ 1 [⟨some 0, some 0, some 0⟩, ⟨some 1, none, none⟩, ⟨some 1, some 0, none⟩, ⟨some 2, none, none⟩]).map (·.1 2)
+      = some (P 6 3 3)
+    ∧ (PathTracer.spline_args (fun _ _ _ => 0) ratTrig false true ⟨some 1, none, none⟩ 1
+        [⟨some 0, some 0, none⟩, ⟨none, none, some 0⟩]).isNone := by decide +kernel
 
 end GscribModel.TracerTie
